@@ -363,6 +363,114 @@ Proof.
 Qed.
 
 
+Lemma df_drop_spec take delta : forall l s,
+  Inv R ES (s_rt s) -> NoDup (map (fun x => ek (snd x)) l) ->
+  (forall im e, (im, e) ∈ l -> rt_find_pure (s_rt s) (ek e) = Some (im, e)) ->
+  wp (df_drop c take delta l)
+     (fun _ s' => Inv R ES (s_rt s') /\ pass_result (df_act take delta) (rt_abs (s_rt s)) l (rt_abs (s_rt s')) /\
+                  (forall k', k' ∉ map (fun x => ek (snd x)) l -> rt_find_pure (s_rt s') k' = rt_find_pure (s_rt s) k')) UI s.
+Proof.
+  induction l as [|[im e] l IH]; intros s HI Hnd Hfind; cbn [df_drop].
+  - apply wp_ret. split; [exact HI|]. split; [intros k; reflexivity|auto].
+  - cbn [map snd] in Hnd. apply NoDup_cons in Hnd as [Hne Hnd]. cbn [fst snd].
+    apply wp_bind. apply frame_use; [apply frame_cb| |].
+    2:{ intros s1 Hs1. split; [rewrite Hs1; exact HI|reflexivity]. }
+    intros [] s1 Hs1. apply wp_bind.
+    apply (mutate_spec im e delta); [rewrite Hs1; exact HI|rewrite Hs1; apply Hfind; left|].
+    intros s2 HI2 Habs2 Hf2 Hoth2. rewrite Hs1 in *.
+    assert (Hl_ne : forall im' e', (im', e') ∈ l -> ek e' <> ek e).
+    { intros im' e' Hin Heq. apply Hne. rewrite <- Heq. apply elem_of_list_fmap. exists (im', e'). auto. }
+    apply wp_bind. destruct (inb (ek e) take) eqn:Etake.
+    + apply wp_bind. apply (rt_remove_spec c im (ek e) (bump0 delta e)); [exact HI2|exact Hf2|].
+      intros s3 (HI3 & Habs3 & _ & Hoth3 & _). apply frame0_use; [apply frame0_drop_elem|]. intros [] s3' Hs3'.
+      eapply wp_conseq; [apply (IH s3'); [rewrite Hs3'; exact HI3|exact Hnd|]| |].
+      * intros im' e' Hin. rewrite Hs3', Hoth3, Hoth2 by (eapply Hl_ne; eauto). apply Hfind. right. exact Hin.
+      * intros [] s4 (HI4 & Hres & Hoth). rewrite Hs3' in *. split; [exact HI4|]. split.
+        { apply (pass_result_cons _ _ (rt_abs (s_rt s3))); [exact Hne|intros k|exact Hres].
+          rewrite Habs3, Habs2. unfold df_act. rewrite Etake. destruct (N.eqb_spec (ek e) k) as [<-|Hneq].
+          - apply lookup_delete.
+          - rewrite lookup_delete_ne, lookup_insert_ne by congruence. reflexivity. }
+        intros k' Hk'. cbn [map snd] in Hk'. apply not_elem_of_cons in Hk' as [Hk1 Hk2].
+        rewrite Hoth by exact Hk2. rewrite Hoth3, Hoth2 by exact Hk1. reflexivity.
+      * auto.
+    + apply wp_ret.
+      eapply wp_conseq; [apply (IH s2 HI2 Hnd)| |].
+      * intros im' e' Hin. rewrite Hoth2 by (eapply Hl_ne; eauto). apply Hfind. right. exact Hin.
+      * intros [] s4 (HI4 & Hres & Hoth). split; [exact HI4|]. split.
+        { apply (pass_result_cons _ _ (rt_abs (s_rt s2))); [exact Hne|intros k|exact Hres].
+          rewrite Habs2. unfold df_act. rewrite Etake. destruct (N.eqb_spec (ek e) k) as [<-|Hneq].
+          - apply lookup_insert.
+          - rewrite lookup_insert_ne by congruence. reflexivity. }
+        intros k' Hk'. cbn [map snd] in Hk'. apply not_elem_of_cons in Hk' as [Hk1 Hk2].
+        rewrite Hoth by exact Hk2. apply Hoth2. exact Hk1.
+      * auto.
+Qed.
+
+Lemma df_run_u_spec take delta : forall l fuel acc s,
+  Inv R ES (s_rt s) -> NoDup (map (fun x => ek (snd x)) l) ->
+  (forall im e, (im, e) ∈ l -> rt_find_pure (s_rt s) (ek e) = Some (im, e)) ->
+  wp (df_run_u c take delta l fuel acc) (fun r s' => df_Q take delta s l fuel acc r s') UI s.
+Proof.
+  induction l as [|[im e] l IH]; intros fuel acc s HI Hnd Hfind; cbn [df_run_u].
+  - apply wp_ret. exists []. cbn [snd fst app]. split; [reflexivity|]. split; [exact HI|].
+    split; [intros k; reflexivity|]. split; [auto|]. split; [cbn; rewrite app_nil_r; reflexivity|]. split; [cbn; lia|]. congruence.
+  - destruct fuel as [|f].
+    + apply wp_ret. exists []. cbn [snd fst app]. split; [reflexivity|]. split; [exact HI|].
+      split; [intros k; reflexivity|]. split; [auto|]. split; [cbn; rewrite app_nil_r; reflexivity|]. split; [cbn; lia|]. reflexivity.
+    + cbn [map snd] in Hnd. apply NoDup_cons in Hnd as [Hne Hnd]. cbn [fst snd].
+      assert (Hl_ne0 : forall im' e', (im', e') ∈ l -> ek e' <> ek e).
+      { intros im' e' Hin Heq. apply Hne. rewrite <- Heq. apply elem_of_list_fmap. exists (im', e'). auto. }
+      apply wp_bind. apply wp_on_unwind. apply frame_use; [apply frame_cb| |].
+      2:{ intros s1 Hs1.
+          eapply wp_conseq; [apply (df_drop_spec take delta l s1); [rewrite Hs1; exact HI|exact Hnd|]| |].
+          - intros im' e' Hin. rewrite Hs1. apply Hfind. right. exact Hin.
+          - intros [] s2 (HI2 & _). split; [exact HI2|reflexivity].
+          - intros p s2 [HI2 ->]. split; [exact HI2|reflexivity]. }
+      intros [] s1 Hs1. apply wp_bind.
+      apply (mutate_spec im e delta); [rewrite Hs1; exact HI|rewrite Hs1; apply Hfind; left|].
+      intros s2 HI2 Habs2 Hf2 Hoth2. rewrite Hs1 in *.
+      assert (Hl_ne : forall im' e', (im', e') ∈ l -> ek e' <> ek e).
+      { intros im' e' Hin Heq. apply Hne. rewrite <- Heq. apply elem_of_list_fmap. exists (im', e'). auto. }
+      destruct (inb (ek e) take) eqn:Etake.
+      * (* accepted: removed and yielded *)
+        apply wp_bind. apply (rt_remove_spec c im (ek e) (bump0 delta e)); [exact HI2|exact Hf2|].
+        intros s3 (HI3 & Habs3 & _ & Hoth3 & _).
+        eapply wp_conseq; [apply (IH f (acc ++ [bump0 delta e]) s3 HI3 Hnd)| |].
+        -- intros im' e' Hin. rewrite Hoth3, Hoth2 by (eapply Hl_ne; eauto). apply Hfind. right. exact Hin.
+        -- intros [acc' rest] s4 (visited & Hl & HI4 & Hres & Hoth & Hacc & Hlen & Hfull). cbn [fst snd] in *.
+           exists ((im, e) :: visited). cbn [snd fst]. split; [rewrite Hl; reflexivity|]. split; [exact HI4|].
+           split.
+           { apply (pass_result_cons _ _ (rt_abs (s_rt s3))); [|intros k|exact Hres].
+             - intros Hin. apply Hne. rewrite Hl, map_app. apply elem_of_app. left. exact Hin.
+             - rewrite Habs3, Habs2. unfold df_act. rewrite Etake. destruct (N.eqb_spec (ek e) k) as [<-|Hneq].
+               + apply lookup_delete.
+               + rewrite lookup_delete_ne, lookup_insert_ne by congruence. reflexivity. }
+           split.
+           { intros k' Hk'. cbn [map snd] in Hk'. apply not_elem_of_cons in Hk' as [Hk1 Hk2].
+             rewrite Hoth by exact Hk2. rewrite Hoth3, Hoth2 by exact Hk1. reflexivity. }
+           rewrite (df_yield_cons_take _ _ _ _ _ Etake). cbn [length].
+           split; [rewrite Hacc, <- app_assoc; reflexivity|]. split; [lia|]. intros Hr. rewrite (Hfull Hr). reflexivity.
+        -- auto.
+      * (* rejected: stays, with the mutation *)
+        eapply wp_conseq; [apply (IH (S f) acc s2 HI2 Hnd)| |].
+        -- intros im' e' Hin. rewrite Hoth2 by (eapply Hl_ne; eauto). apply Hfind. right. exact Hin.
+        -- intros [acc' rest] s4 (visited & Hl & HI4 & Hres & Hoth & Hacc & Hlen & Hfull). cbn [fst snd] in *.
+           exists ((im, e) :: visited). cbn [snd fst]. split; [rewrite Hl; reflexivity|]. split; [exact HI4|].
+           split.
+           { apply (pass_result_cons _ _ (rt_abs (s_rt s2))); [|intros k|exact Hres].
+             - intros Hin. apply Hne. rewrite Hl, map_app. apply elem_of_app. left. exact Hin.
+             - rewrite Habs2. unfold df_act. rewrite Etake. destruct (N.eqb_spec (ek e) k) as [<-|Hneq].
+               + apply lookup_insert.
+               + rewrite lookup_insert_ne by congruence. reflexivity. }
+           split.
+           { intros k' Hk'. cbn [map snd] in Hk'. apply not_elem_of_cons in Hk' as [Hk1 Hk2].
+             rewrite Hoth by exact Hk2. apply Hoth2. exact Hk1. }
+           rewrite (df_yield_cons_skip _ _ _ _ _ Etake). auto.
+        -- auto.
+Qed.
+
+
+
 Lemma df_yield_app take delta v1 v2 : df_yield take delta (v1 ++ v2) = df_yield take delta v1 ++ df_yield take delta v2.
 Proof. unfold df_yield. rewrite map_app, List.filter_app, map_app. reflexivity. Qed.
 
@@ -396,7 +504,7 @@ Proof.
   intros HI HQ HU. unfold map_drain_filter. apply wp_bind. apply rt_iter_spec; [exact HI|]. intros l Hit.
   pose proof (iter_of_find (s_rt s) l HI Hit) as [Hnd Hfind].
   apply wp_bind.
-  eapply wp_conseq; [apply (df_run_spec take delta l _ [] s HI Hnd)| |].
+  eapply wp_conseq; [apply (df_run_u_spec take delta l _ [] s HI Hnd)| |].
   - intros im e Hin. apply Hfind. exact Hin.
   - intros [acc rest] s1 (v1 & Hl & HI1 & Hres1 & Hoth1 & Hacc1 & Hlen1 & Hfull1). cbn [fst snd app] in *.
     assert (Hj : match j with Some j => (length (df_yield take delta v1) <= N.to_nat j)%nat /\
@@ -410,18 +518,13 @@ Proof.
     + (* dropped: the remaining buckets are run through as well *)
       assert (Hnd2 : NoDup (map (fun x => ek (snd x)) rest)).
       { rewrite Hl, map_app in Hnd. apply NoDup_app in Hnd. tauto. }
-      apply wp_bind. apply wp_bind.
-      eapply wp_conseq; [apply (df_run_spec take delta rest (S (length l)) [] s1 HI1 Hnd2)| |].
+      apply wp_bind.
+      eapply wp_conseq; [apply (df_drop_spec take delta rest s1 HI1 Hnd2)| |].
       * intros im e Hin. rewrite Hoth1; [apply Hfind; rewrite Hl; apply elem_of_app; right; exact Hin|].
         intros Hk. rewrite Hl, map_app in Hnd. apply NoDup_app in Hnd as (_ & Hdisj & _).
         eapply Hdisj; [exact Hk|]. apply elem_of_list_fmap. exists (im, e). auto.
-      * intros [acc2 rest2] s2 (v2 & Hl2 & HI2 & Hres2 & Hoth2 & Hacc2 & Hlen2 & Hfull2). cbn [fst snd app] in *.
-        assert (rest2 = []).
-        { destruct rest2 as [|x r2]; [reflexivity|]. exfalso. specialize (Hfull2 ltac:(discriminate)).
-          pose proof (df_yield_length take delta v2). rewrite Hl, Hl2, !app_length in Hfull2. lia. }
-        subst rest2. rewrite app_nil_r in Hl2. subst v2.
-        apply frame0_use; [apply frame0_drop_elems|]. intros [] s3 Hs3. apply wp_ret. subst acc.
-        apply (HQ l v1 rest); auto; [rewrite Hs3; exact HI2|]. rewrite Hs3.
+      * intros [] s2 (HI2 & Hres2 & Hoth2). apply wp_ret. subst acc.
+        apply (HQ l v1 rest); auto.
         (* the two passes compose *)
         intros k. rewrite Hres2. rewrite Hl, map_app.
         unfold lookup_list. rewrite find_app'. fold (lookup_list k (map snd v1)) (lookup_list k (map snd rest)).
